@@ -145,6 +145,8 @@ def verify_arbiter_grant():
         fv.add("every-other-initiator-covered", lab0, [0 <= v, v < N, v != G],
                z3.If(v < G, z3.And(0 <= G - 1 - v, G - 1 - v < G), z3.And(0 <= N - 1 - v, N - 1 - v < N - 1 - G)))
         fv.add("cover:both-loops-issue-a-statement", lab0, [], z3.BoolVal({e["which"] for e in grants} == {"pred", "succ"}))
+        from .hdlrec import stores_nothing_on_the_component as _frame
+        _frame(fv, ex)
         fv.add_engine_obligations(ex)
     # AST: grant is assigned nowhere else
     others = []
@@ -311,6 +313,8 @@ def verify_arbiter_fanout():
             fv.add("private-stall-signal-resets-to-1", lab, qend.pc,
                    z3.BoolVal(len(st) >= 1) if not st else (ex.toint(st[-1].init) == 1))
     fv.add("cover:initiator-paths", "vacuity", [], z3.BoolVal(n_i >= 16))
+    from .hdlrec import stores_nothing_on_the_component as _frame
+    _frame(fv, ex)
     fv.add_engine_obligations(ex)
     return fv
 
